@@ -706,12 +706,13 @@ class IsoHybrid:
 
         psize = 0
         ecyle = 0
+        esect = 0
         offset = 32 + struct.calcsize(self.FMT)
         for i in range(1, 5):
             if bytes(bytearray([instr[offset]])) == b'\x80':
                 self.part_entry = i
                 (const_unused, self.bhead, self.bsect, self.bcyle, self.ptype,
-                 self.ehead, esect_unused, ecyle, self.part_offset,
+                 self.ehead, esect, ecyle, self.part_offset,
                  psize) = struct.unpack_from('<BBBBBBBBLL', instr[:offset + 16], offset)
             if i == 2 and instr[offset:offset + 8] == self.EFI_HEADER:
                 self.efi = True
@@ -732,7 +733,13 @@ class IsoHybrid:
 
         self.geometry_heads = self.ehead + 1
 
-        self.geometry_sectors = min(psize // ((ecyle + 1) * self.geometry_heads), 63)
+        # The low six bits of the end sector are the sectors per track (the
+        # upper two are bits 8 and 9 of the end cylinder).  Only if that
+        # field is empty estimate it from the size of the partition, which is
+        # right for up to 256 cylinders and no partition offset.
+        self.geometry_sectors = esect & 0x3f
+        if self.geometry_sectors == 0:
+            self.geometry_sectors = min(psize // ((ecyle + 1) * self.geometry_heads), 63)
 
         if self.efi:
             self.primary_gpt.parse_primary(instr, self.mac)
